@@ -606,7 +606,14 @@ def backport_map(repo: Repo) -> RuleRun:
         mesh.set("is_assembled", True)
         mesh.set("blocks", list(bl.get("blocks")))
         if late is not None:
-            mesh.get("deleted").add(ops[late])
+            # through the repository's own Mesh.delete: whatever else it does to the record of the assembly counts
+            dele = repo.func("mesh.Mesh.delete")
+            try:
+                Evaluator(repo=repo, module=dele.module).call_funcinfo(dele, [mesh, ops[late]])
+            except (Raised, NotEvaluable) as err:
+                raise AnalysisError(f"Mesh.delete not evaluable on the assembled mesh model: {err}") from err
+            if ops[late] not in mesh.get("deleted"):
+                mesh.get("deleted").add(ops[late])  # (reported by C12.DELETE-SKIP)
         label = f"deleted before assembly: {deleted}, after: {late}"
         events = []
 
